@@ -103,6 +103,17 @@ def plan(tier):
         for cfg in _cfgs('S3', seq, 0, tier)[:1]:
             cfg.update(pgrid='zero', ndates=4, tail_next=2)
             tasks.append(dict(harness='ops', cfg=cfg, opts=opts))
+    # cash-only sub-strategy, no costs: capital moved between nodes changes cash rows but no value (second operation on a date)
+    for seq in ((['adjust'], ['alloc', 'sub']), (['alloc', 'sub'], ['alloc', 'sub']), (['alloc', 'sub'], ['next']), (['adjust'], ['alloc', 'a', 'sub']),
+                (['alloc', 'sub'], ['close', 'sub']), (['next'], ['alloc', 'sub'])):
+        cfg = dict(shape='S3', int=0, fee=['none', None], spread=0, ops=[list(o) for o in seq], mult=1, subcash=1)
+        tasks.append(dict(harness='ops', cfg=cfg, opts=opts))
+    # trades at a custom price (bid/offer data on), incl. a custom price of exactly 0 (zero cash leg) with no commission
+    for seq in ((['transact_px', 'b', 0.0], ['read']), (['transact_px', 'a', 101.25], ['transact_px', 'b', 0.0]), (['next'], ['transact_px', 'b', 0.0]),
+                (['transact_px', 'b', 36.0], ['next'])):
+        for fee in (['none', None], ['uf']):
+            cfg = dict(shape='S1', int=0, fee=fee, spread=1, ops=[list(o) for o in seq], mult=1)
+            tasks.append(dict(harness='ops', cfg=cfg, opts=opts))
     # insolvent / degenerate pre-states (capital from 0): bankruptcy liquidation and zero-value branches
     ins = [(['transact', 'b'], ['next']), (['next'], ['transact', 'b']), (['adjust'], ['flatten']), (['transact', 'b'], ['close', 'b']),
            (['adjust_nf'], ['next']), (['next'], ['next'])]
